@@ -339,20 +339,31 @@ Proof.
   simpl. destruct (is_digit c), (c =? 46), (c =? 101), (c =? 69); simpl; intros H; try discriminate; repeat split.
 Qed.
 
+Lemma scan_frac_stop R : num_stop R = true -> scan_frac R = Some ([], R).
+Proof.
+  intros Hs. destruct R as [|c R]; [reflexivity|]. unfold scan_frac.
+  destruct (num_stop_cons c R Hs) as (_ & -> & _). reflexivity.
+Qed.
+
+Lemma scan_exp_stop R : num_stop R = true -> scan_exp R = Some ([], R).
+Proof.
+  intros Hs. destruct R as [|c R]; [reflexivity|]. unfold scan_exp.
+  destruct (num_stop_cons c R Hs) as (_ & _ & ->). reflexivity.
+Qed.
+
 Lemma scan_unsigned_dec z R : (0 <= z)%Z -> num_stop R = true ->
   scan_unsigned (dec_nonneg z ++ R) = Some (dec_nonneg z, R).
 Proof.
   intros Hz Hs. destruct (dec_nonneg_spec z Hz) as (A1 & A2 & A3 & A4).
-  destruct (Z.eq_dec z 0) as [->|Hn].
-  - rewrite (A4 eq_refl). unfold scan_unsigned. cbn [app]. change (48 =? 48) with true. cbv iota.
-    destruct R as [|c R]; [reflexivity|].
-    destruct (num_stop_cons c R Hs) as (_ & -> & ->). reflexivity.
-  - destruct (A3 ltac:(lia)) as (c & t & Hds & Hc). rewrite Hds in *.
-    destruct (is_digit19_digit c Hc) as (Hd & H48 & H45).
-    simpl in A1. rewrite Hd in A1. simpl in A1.
-    unfold scan_unsigned. cbn [app]. rewrite H48, Hc. rewrite span_digits by assumption.
-    destruct R as [|c2 R]; [rewrite !app_nil_r; reflexivity|].
-    destruct (num_stop_cons c2 R Hs) as (_ & -> & ->). rewrite !app_nil_r. reflexivity.
+  assert (Hint : scan_int (dec_nonneg z ++ R) = Some (dec_nonneg z, R)).
+  { destruct (Z.eq_dec z 0) as [->|Hn].
+    - rewrite (A4 eq_refl). reflexivity.
+    - destruct (A3 ltac:(lia)) as (c & t & Hds & Hc). rewrite Hds in *.
+      destruct (is_digit19_digit c Hc) as (Hd & H48 & H45).
+      simpl in A1. rewrite Hd in A1. simpl in A1.
+      unfold scan_int. cbn [app]. rewrite H48, Hc. rewrite span_digits by assumption. reflexivity. }
+  unfold scan_unsigned. rewrite Hint, scan_frac_stop, scan_exp_stop by assumption.
+  rewrite !app_nil_r. reflexivity.
 Qed.
 
 Lemma dec_head z : exists c t, dec z = c :: t /\ (c = 45 \/ is_digit c = true).
@@ -703,4 +714,254 @@ Proof.
   intros H. unfold encoder_output, print_compact, print_pretty. destruct pretty.
   - apply parse_print_layout; [exact nl_indent_ws | reflexivity | assumption | reflexivity].
   - apply parse_print_layout; [exact nl_compact_ws | reflexivity | assumption | reflexivity].
+Qed.
+
+(* ---------- the fuel is never exhausted: parsing any text ends in a value or a syntax error ---------- *)
+
+Lemma skip_ws_length s : (length (skip_ws s) <= length s)%nat.
+Proof. induction s as [|c s IH]; simpl; [lia|]. destruct (is_ws c); simpl; lia. Qed.
+
+Lemma skip_ws_cons s c r : skip_ws s = c :: r -> (length r < length s)%nat.
+Proof. intros H. pose proof (skip_ws_length s) as L. rewrite H in L. simpl in L. lia. Qed.
+
+Lemma prepend_ok p x d r : prepend p x = Ok (d, r) -> exists d', x = Ok (d', r).
+Proof. destruct x as [[d' r'] | e | c]; simpl; intros H; inversion H; subst; eauto. Qed.
+
+Lemma prepend_crash p x c : prepend p x = Crash c -> x = Crash c.
+Proof. destruct x as [[d' r'] | e | c']; simpl; intros H; inversion H; subst; reflexivity. Qed.
+
+Lemma hex4_length s v r : hex4 s = Some (v, r) -> (length r <= length s)%nat.
+Proof.
+  unfold hex4. destruct s as [|a [|b [|c [|d t]]]]; try discriminate.
+  destruct (hexv a), (hexv b), (hexv c), (hexv d); try discriminate. intros H. inversion H; subst. simpl. lia.
+Qed.
+
+Lemma skipn_length_le {A} n (l : list A) : (length (skipn n l) <= length l)%nat.
+Proof. rewrite skipn_length. lia. Qed.
+
+Ltac break_read H :=
+  repeat match type of H with
+  | context [if ?c then _ else _] => destruct c eqn:?
+  | context [match ?x with _ => _ end] => destruct x eqn:?
+  end.
+
+(* the text after the closing quote is shorter than the text after the opening quote *)
+Lemma read_string_fuel_rest f : forall s d r, read_string_fuel f s = Ok (d, r) -> (length r < length s)%nat.
+Proof.
+  induction f as [|k IH]; intros s d r H; [discriminate|].
+  cbn [read_string_fuel] in H. destruct s as [|c t]; [discriminate|].
+  destruct (c =? 34); [inversion H; subst; simpl; lia|].
+  destruct (c =? 92).
+  - destruct t as [|e r1]; [discriminate|].
+    repeat match type of H with
+    | (if ?c then _ else _) = _ => destruct c
+    end; try discriminate;
+    try (apply prepend_ok in H as (d' & H); apply IH in H; simpl in *; lia).
+    destruct (hex4 r1) as [[v r2]|] eqn:E4; [|discriminate].
+    apply hex4_length in E4.
+    destruct (is_surrogate v).
+    + destruct r2 as [|x1 [|x2 r3]] eqn:Er2.
+      * apply prepend_ok in H as (d' & H). apply IH in H. simpl in *. lia.
+      * destruct x1 as [|p1]; try (apply prepend_ok in H as (d' & H); apply IH in H; simpl in *; lia).
+        repeat (destruct p1 as [p1|p1|]; try (apply prepend_ok in H as (d' & H); apply IH in H; simpl in *; lia)).
+      * assert (Hfall : forall d', read_string_fuel k (x1 :: x2 :: r3) = Ok (d', r) -> (length r < length (c :: e :: r1))%nat).
+        { intros d' H'. apply IH in H'. simpl in *. lia. }
+        destruct x1 as [|p1]; try (apply prepend_ok in H as (d' & H); eapply Hfall; exact H).
+        repeat (destruct p1 as [p1|p1|]; try (apply prepend_ok in H as (d' & H); eapply Hfall; exact H)).
+        destruct x2 as [|p2]; try (apply prepend_ok in H as (d' & H); eapply Hfall; exact H).
+        repeat (destruct p2 as [p2|p2|]; try (apply prepend_ok in H as (d' & H); eapply Hfall; exact H)).
+        destruct (hex4 r3) as [[v2 r4]|] eqn:E5; [|apply prepend_ok in H as (d' & H); eapply Hfall; exact H].
+        apply hex4_length in E5.
+        destruct (is_high v && is_low v2); apply prepend_ok in H as (d' & H); [|eapply Hfall; exact H].
+        apply IH in H. simpl in *. lia.
+    + apply prepend_ok in H as (d' & H). apply IH in H. simpl in *. lia.
+  - destruct (c <? 32); [discriminate|].
+    destruct (c <? 128); apply prepend_ok in H as (d' & H); apply IH in H.
+    + simpl in *. lia.
+    + pose proof (skipn_length_le (snd (decode_rune (c :: t))) (c :: t)). lia.
+Qed.
+
+Lemma read_string_fuel_no_crash f : forall s c, read_string_fuel f s <> Crash c.
+Proof.
+  induction f as [|k IH]; intros s c H; [discriminate|].
+  cbn [read_string_fuel] in H. destruct s as [|x t]; [discriminate|].
+  repeat match type of H with
+  | (if ?b then _ else _) = _ => destruct b
+  | match ?x with _ => _ end = _ => destruct x
+  end; try discriminate; apply prepend_crash in H; eapply IH; exact H.
+Qed.
+
+Lemma read_string_rest s d r : read_string s = Ok (d, r) -> (length r < length s)%nat.
+Proof. apply read_string_fuel_rest. Qed.
+Lemma read_string_no_crash s c : read_string s <> Crash c.
+Proof. apply read_string_fuel_no_crash. Qed.
+
+Lemma span_length {A} (p : A -> bool) l : (length (snd (span p l)) <= length l)%nat.
+Proof. rewrite <- (span_app p l) at 2. rewrite app_length. lia. Qed.
+
+Lemma scan_int_rest s p r : scan_int s = Some (p, r) -> (length r <= length s)%nat.
+Proof.
+  unfold scan_int. destruct s as [|c r1]; [discriminate|].
+  destruct (c =? 48); [intros H; inversion H; subst; simpl; lia|].
+  destruct (is_digit19 c); [|discriminate].
+  pose proof (span_length is_digit r1) as L. destruct (span is_digit r1). intros H. inversion H; subst. simpl in *. lia.
+Qed.
+
+Lemma scan_frac_rest s p r : scan_frac s = Some (p, r) -> (length r <= length s)%nat.
+Proof.
+  unfold scan_frac. destruct s as [|c r1]; [intros H; inversion H; subst; lia|].
+  destruct (c =? 46); [|intros H; inversion H; subst; lia].
+  pose proof (span_length is_digit r1) as L. destruct (span is_digit r1) as [ds r4]. destruct ds; [discriminate|].
+  intros H. inversion H; subst. simpl in *. lia.
+Qed.
+
+Lemma scan_exp_rest s p r : scan_exp s = Some (p, r) -> (length r <= length s)%nat.
+Proof.
+  unfold scan_exp. destruct s as [|e r5]; [intros H; inversion H; subst; lia|].
+  destruct ((e =? 101) || (e =? 69)); [|intros H; inversion H; subst; lia].
+  destruct r5 as [|x r'].
+  - simpl. discriminate.
+  - destruct ((x =? 43) || (x =? 45)).
+    + pose proof (span_length is_digit r') as L. destruct (span is_digit r') as [ds r7]. destruct ds; [discriminate|].
+      intros H. inversion H; subst. simpl in *. lia.
+    + pose proof (span_length is_digit (x :: r')) as L. destruct (span is_digit (x :: r')) as [ds r7]. destruct ds; [discriminate|].
+      intros H. inversion H; subst. simpl in *. lia.
+Qed.
+
+Lemma scan_unsigned_rest s lit r : scan_unsigned s = Some (lit, r) -> (length r <= length s)%nat.
+Proof.
+  unfold scan_unsigned.
+  destruct (scan_int s) as [[ip s2]|] eqn:E1; [|discriminate]. apply scan_int_rest in E1.
+  destruct (scan_frac s2) as [[fp s3]|] eqn:E2; [|discriminate]. apply scan_frac_rest in E2.
+  destruct (scan_exp s3) as [[ep s4]|] eqn:E3; [|discriminate]. apply scan_exp_rest in E3.
+  intros H. inversion H; subst. lia.
+Qed.
+
+Lemma scan_number_rest s lit r : scan_number s = Some (lit, r) -> (length r <= length s)%nat.
+Proof.
+  unfold scan_number. destruct s as [|c t]; [discriminate|]. destruct (c =? 45).
+  - destruct (scan_unsigned t) as [[l rest]|] eqn:E; [|discriminate]. intros H. inversion H; subst.
+    apply scan_unsigned_rest in E. simpl. lia.
+  - apply scan_unsigned_rest.
+Qed.
+
+Definition total_on {A} (x : outcome (A * bytes)) (s : bytes) : Prop :=
+  (forall c, x <> Crash c) /\ (forall a r, x = Ok (a, r) -> (length r <= length s)%nat).
+
+Lemma parse_total : forall fuel,
+  (forall s, (2 * length s + 1 <= fuel)%nat -> total_on (parse_value fuel s) s) /\
+  (forall s, (2 * length s + 2 <= fuel)%nat -> total_on (parse_elements fuel s) s) /\
+  (forall s, (2 * length s + 2 <= fuel)%nat -> total_on (parse_members fuel s) s).
+Proof.
+  induction fuel as [|k (IHv & IHe & IHm)].
+  { repeat split; intros; lia. }
+  split; [|split].
+  - (* value *)
+    intros s Hf. cbn [parse_value]. destruct (skip_ws s) as [|c r] eqn:Es; [split; [discriminate | discriminate]|].
+    pose proof (skip_ws_cons _ _ _ Es) as Hr.
+    destruct (c =? 123).
+    { destruct (skip_ws r) as [|c' r'] eqn:Er; [split; discriminate|].
+      pose proof (skip_ws_cons _ _ _ Er) as Hr'.
+      destruct (c' =? 125); [split; [discriminate | intros a r0 H; inversion H; subst; lia]|].
+      destruct (IHm r ltac:(lia)) as [Hc Hl].
+      destruct (parse_members k r) as [[m r'']|e|c0] eqn:Em; cbn [bind].
+      - split; [discriminate|]. intros a r0 H. inversion H; subst. specialize (Hl _ _ eq_refl). lia.
+      - split; discriminate.
+      - exfalso. eapply Hc. reflexivity. }
+    destruct (c =? 91).
+    { destruct (skip_ws r) as [|c' r'] eqn:Er; [split; discriminate|].
+      pose proof (skip_ws_cons _ _ _ Er) as Hr'.
+      destruct (c' =? 93); [split; [discriminate | intros a r0 H; inversion H; subst; lia]|].
+      destruct (IHe r ltac:(lia)) as [Hc Hl].
+      destruct (parse_elements k r) as [[m r'']|e|c0] eqn:Em; cbn [bind].
+      - split; [discriminate|]. intros a r0 H. inversion H; subst. specialize (Hl _ _ eq_refl). lia.
+      - split; discriminate.
+      - exfalso. eapply Hc. reflexivity. }
+    destruct (c =? 34).
+    { destruct (read_string r) as [[str r']|e|c0] eqn:E; cbn [bind].
+      - apply read_string_rest in E. split; [discriminate|]. intros a r0 H. inversion H; subst. lia.
+      - split; discriminate.
+      - exfalso. eapply read_string_no_crash. exact E. }
+    destruct (has_prefix b!"true" (c :: r)).
+    { split; [discriminate|]. intros a r0 H. assert (r0 = skipn 3 r) by congruence. subst r0. pose proof (skipn_length_le 3 r). lia. }
+    destruct (has_prefix b!"false" (c :: r)).
+    { split; [discriminate|]. intros a r0 H. assert (r0 = skipn 4 r) by congruence. subst r0. pose proof (skipn_length_le 4 r). lia. }
+    destruct (has_prefix b!"null" (c :: r)).
+    { split; [discriminate|]. intros a r0 H. assert (r0 = skipn 3 r) by congruence. subst r0. pose proof (skipn_length_le 3 r). lia. }
+    destruct (scan_number (c :: r)) as [[lit r']|] eqn:En; [|split; discriminate].
+    apply scan_number_rest in En. split; [discriminate|]. intros a r0 H. inversion H; subst. simpl in En. lia.
+  - (* elements *)
+    intros s Hf. cbn [parse_elements].
+    destruct (IHv s ltac:(lia)) as [Hc Hl].
+    destruct (parse_value k s) as [[v r]|e|c0] eqn:Ev; cbn [bind]; [|split; discriminate|exfalso; eapply Hc; reflexivity].
+    specialize (Hl _ _ eq_refl).
+    destruct (skip_ws r) as [|x r'] eqn:Er; [split; discriminate|].
+    pose proof (skip_ws_cons _ _ _ Er) as Hr'.
+    assert (Hcomma : total_on (let* (l, r'') := parse_elements k r' in Ok (v :: l, r'')) s).
+    { destruct (IHe r' ltac:(lia)) as [Hc' Hl'].
+      destruct (parse_elements k r') as [[l r'']|e|c0] eqn:Ee; cbn [bind].
+      - split; [discriminate|]. intros a r0 H. inversion H; subst. specialize (Hl' _ _ eq_refl). lia.
+      - split; discriminate.
+      - exfalso. eapply Hc'. reflexivity. }
+    assert (Hclose : total_on (Ok ([v], r')) s).
+    { split; [discriminate|]. intros a r0 H. inversion H; subst. lia. }
+    assert (Herr : total_on (@syntax_err (list json * bytes)) s) by (split; discriminate).
+    destruct x as [|p]; [exact Herr|].
+    repeat (destruct p as [p|p|]; try exact Herr; try exact Hcomma; try exact Hclose).
+  - (* members *)
+    intros s Hf. cbn [parse_members].
+    assert (Herr : total_on (@syntax_err (list (bytes * json) * bytes)) s) by (split; discriminate).
+    destruct (skip_ws s) as [|q r0] eqn:Es; [exact Herr|].
+    pose proof (skip_ws_cons _ _ _ Es) as Hr0.
+    assert (Hmain : total_on (let* (key, r1) := read_string r0 in
+                              match skip_ws r1 with
+                              | 58 :: r2 =>
+                                let* (v, r) := parse_value k r2 in
+                                match skip_ws r with
+                                | 44 :: r' => let* (l, r'') := parse_members k r' in Ok ((key, v) :: l, r'')
+                                | 125 :: r' => Ok ([(key, v)], r')
+                                | _ => syntax_err
+                                end
+                              | _ => syntax_err
+                              end) s).
+    { destruct (read_string r0) as [[key r1]|e|c0] eqn:Ek; cbn [bind]; [|split; discriminate|exfalso; eapply read_string_no_crash; exact Ek].
+      apply read_string_rest in Ek.
+      destruct (skip_ws r1) as [|y r2] eqn:E1; [exact Herr|].
+      pose proof (skip_ws_cons _ _ _ E1) as Hr2.
+      assert (Hval : total_on (let* (v, r) := parse_value k r2 in
+                               match skip_ws r with
+                               | 44 :: r' => let* (l, r'') := parse_members k r' in Ok ((key, v) :: l, r'')
+                               | 125 :: r' => Ok ([(key, v)], r')
+                               | _ => syntax_err
+                               end) s).
+      { destruct (IHv r2 ltac:(lia)) as [Hc Hl].
+        destruct (parse_value k r2) as [[v r]|e|c0] eqn:Ev; cbn [bind]; [|split; discriminate|exfalso; eapply Hc; reflexivity].
+        specialize (Hl _ _ eq_refl).
+        destruct (skip_ws r) as [|x r'] eqn:Er; [exact Herr|].
+        pose proof (skip_ws_cons _ _ _ Er) as Hr'.
+        assert (Hcomma : total_on (let* (l, r'') := parse_members k r' in Ok ((key, v) :: l, r'')) s).
+        { destruct (IHm r' ltac:(lia)) as [Hc' Hl'].
+          destruct (parse_members k r') as [[l r'']|e|c0] eqn:Ee; cbn [bind].
+          - split; [discriminate|]. intros a r3 H. inversion H; subst. specialize (Hl' _ _ eq_refl). lia.
+          - split; discriminate.
+          - exfalso. eapply Hc'. reflexivity. }
+        assert (Hclose : total_on (Ok ([(key, v)], r')) s).
+        { split; [discriminate|]. intros a r3 H. inversion H; subst. lia. }
+        destruct x as [|p]; [exact Herr|].
+        repeat (destruct p as [p|p|]; try exact Herr; try exact Hcomma; try exact Hclose). }
+      destruct y as [|p]; [exact Herr|].
+      repeat (destruct p as [p|p|]; try exact Herr; try exact Hval). }
+    destruct q as [|p]; [exact Herr|].
+    repeat (destruct p as [p|p|]; try exact Herr; try exact Hmain).
+Qed.
+
+(* parse_json is total: a value or a syntax error, never out of fuel *)
+Theorem parse_json_no_crash s c : parse_json s <> Crash c.
+Proof.
+  unfold parse_json. destruct (parse_total (2 * length s + 2)) as (Hv & _ & _).
+  destruct (Hv s ltac:(lia)) as [Hc _].
+  destruct (parse_value (2 * length s + 2) s) as [[v r]|e|c0] eqn:E; cbn [bind].
+  - destruct (skip_ws r); discriminate.
+  - discriminate.
+  - exfalso. eapply Hc. reflexivity.
 Qed.
